@@ -486,32 +486,12 @@ func isRangeElemOfCall(v ssa.Value, fn *ssa.Function) bool {
 	if !ok || call.Call.StaticCallee() != fn {
 		return false
 	}
-	add, ok := ia.Index.(*ssa.BinOp)
-	if !ok || add.Op != token.ADD {
+	// ascending in-order walk: a range loop or `for i := 0; i < len(keys); i++`
+	bound, ok := countingLoopIndex(ia.Index)
+	if !ok {
 		return false
 	}
-	if k, ok := constInt(add.Y); !ok || k != 1 {
-		return false
-	}
-	phi, ok := add.X.(*ssa.Phi)
-	if !ok || !strings.Contains(phi.Comment, "rangeindex") {
-		return false
-	}
-	initOK := false
-	for _, e := range phi.Edges {
-		if n, ok := constInt(e); ok && n == -1 {
-			initOK = true
-		}
-	}
-	ifi, ok := lastInstr(phi.Block()).(*ssa.If)
-	if !ok || !initOK {
-		return false
-	}
-	cmp, ok := ifi.Cond.(*ssa.BinOp)
-	if !ok || cmp.Op != token.LSS || cmp.X != ssa.Value(add) {
-		return false
-	}
-	ln, ok := cmp.Y.(*ssa.Call)
+	ln, ok := bound.(*ssa.Call)
 	if !ok {
 		return false
 	}
